@@ -133,6 +133,52 @@ pub fn gen_pure(seed: u64, thorough: bool, out: &Sink) {
             case += 1;
         }
     }
+    // refresh_iceberg: every kind x displayed x hidden x amount on a small grid, the 64-bit corners, random
+    {
+        let hs: Vec<u64> = vec![0, 1, 2, 5, 79, 80, 81, U64MAX - 1, U64MAX];
+        let ns: Vec<u64> = vec![0, 1, 2, 4, 5, 6, 80, 100, U64MAX - 1, U64MAX];
+        for kind in 0..7u8 {
+            for &vis in &[0u64, 3, U64MAX] {
+                for &hid in &hs {
+                    if kind < 5 && hid > 1 { continue; }
+                    for &n in &ns {
+                        for auto in [false, true] {
+                            if kind != 6 && auto { continue; }
+                            let o = mk_order(kind, id, 100, vis, hid, 2, Some(3), auto, Side::Buy, 5, TimeInForce::Gtc);
+                            out.push(format!("case {case}"));
+                            out.push(format!("ri {} {}", show_order(&o), n));
+                            case += 1;
+                        }
+                    }
+                }
+            }
+        }
+        for _ in 0..(if thorough { 20_000 } else { 1_500 }) {
+            let kind = if r.chance(1, 4) { r.below(5) as u8 } else { 5 + r.below(2) as u8 };
+            let hid = if r.chance(1, 6) { r.next() >> r.below(64) } else { r.below(120) };
+            let n = match r.below(5) { 0 => hid, 1 => hid.saturating_sub(1), 2 => hid.saturating_add(1), 3 => r.below(120), _ => r.next() >> r.below(64) };
+            let amt = match r.below(3) { 0 => None, 1 => Some(r.below(100)), _ => Some(r.next() >> r.below(64)) };
+            let tif = *r.pick(&[TimeInForce::Gtc, TimeInForce::Ioc, TimeInForce::Fok, TimeInForce::Day, TimeInForce::Gtd(777)]);
+            let idr = if r.chance(1, 2) { OrderId::from_u64(r.below(1000)) } else { OrderId::Ulid(ulid::Ulid(r.next() as u128)) };
+            let o = mk_order(kind, idr, r.below(1000), r.below(50), hid, r.below(9), amt, r.chance(1, 2), if r.chance(1, 2) { Side::Buy } else { Side::Sell }, r.below(100), tif);
+            out.push(format!("case {case}"));
+            out.push(format!("ri {} {}", show_order(&o), n));
+            case += 1;
+        }
+    }
+    // time-in-force predicates: every kind x every time in force x instants around the expiry / the close
+    for kind in 0..7u8 {
+        for tif in [TimeInForce::Gtc, TimeInForce::Ioc, TimeInForce::Fok, TimeInForce::Day, TimeInForce::Gtd(0), TimeInForce::Gtd(500), TimeInForce::Gtd(U64MAX)] {
+            let o = mk_order(kind, id, 100, 7, 9, 2, Some(3), true, Side::Sell, 5, tif);
+            for now in [0u64, 499, 500, 501, U64MAX] {
+                for close in ["-", "0", "500", "501", "18446744073709551615"] {
+                    out.push(format!("case {case}"));
+                    out.push(format!("tf {} {} {}", show_order(&o), now, close));
+                    case += 1;
+                }
+            }
+        }
+    }
     for _ in 0..(if thorough { 20_000 } else { 2_000 }) {
         let q = if r.chance(1, 8) { r.next() } else { r.below(60) };
         let k = r.below(6);
